@@ -424,6 +424,58 @@ def r3_selection(repo, rep):
   reindex = [n for n in g.nodes if n.kind == 'stmt' and isinstance(n.ast, ast.Assign) and 'reindex(%s' % geos in norm(n.ast.value)]
   narrow = narrow + reindex
   resets = [n for n in g.nodes if n.kind == 'stmt' and 'reset_index(' in norm(n.ast)]
+  # the narrowing to the subset gives the rows the *given order*; a path that answers in index mode without it must be
+  # taken only when the given order is the table order.  A bypass condition that reads the subset only through
+  # order-insensitive operations (set(), len(), sorted(), membership) cannot tell a permutation of the table from the table
+  # itself: the permuted request takes the same path and is answered in table order
+  bypass_reads_order = False
+  if narrow:
+    rd_b = dataflow.Reaching(g)
+    res_b = lambda node, e_: rd_b.expand(node, e_)[0]
+    ef_b = cfgmod.edge_filter_under(g, {geos: 'notnone', indices: True}, resolve_at=res_b, extra=cfgmod.no_exc)
+    byp = g.path_avoiding(g.entry, lambda n_: n_ is g.exit, lambda n_: n_ in narrow, ef_b)
+    if byp is not None:
+      from mmsa import pathcond as _pc
+      pf_ = _pc.PathFacts(byp, rd_b, keep=(geos, indices))
+      conds_ = [e_ for conj_ in pf_.dnf[:1] for e_, t_ in conj_]
+      reads = [c_ for c_ in conds_ if any(isinstance(x_, ast.Name) and x_.id == geos for x_ in ast.walk(c_))]
+      reads = [c_ for c_ in reads if not re.fullmatch(r'%s is (not )?None' % re.escape(geos), norm(c_))]
+
+      def order_blind(c_):
+        par = {}
+        for x_ in ast.walk(c_):
+          for ch_ in ast.iter_child_nodes(x_):
+            par[id(ch_)] = x_
+        for x_ in ast.walk(c_):
+          if not (isinstance(x_, ast.Name) and x_.id == geos):
+            continue
+          cur, blind = x_, False
+          p0_ = par.get(id(x_))
+          if isinstance(p0_, ast.Compare) and len(p0_.ops) == 1 and isinstance(p0_.ops[0], (ast.Is, ast.IsNot)) and au.is_const(p0_.comparators[0], None):
+            continue          # `geos is None`: says nothing about the order
+          while id(cur) in par:
+            p_ = par[id(cur)]
+            if isinstance(p_, ast.Call) and isinstance(p_.func, ast.Name) and p_.func.id in ('set', 'frozenset', 'len', 'sorted', 'Counter', 'sum', 'min', 'max') and cur in p_.args:
+              blind = True
+            if isinstance(p_, ast.Call) and isinstance(p_.func, ast.Attribute) and p_.func.attr in ('isin', 'issubset', 'issuperset', 'isdisjoint', 'difference', 'intersection', 'union',
+                                                                                                     'symmetric_difference') and cur in p_.args:
+              blind = True
+            if isinstance(p_, ast.Compare) and any(isinstance(o_, (ast.In, ast.NotIn)) for o_ in p_.ops) and cur in p_.comparators:
+              blind = True
+            if isinstance(p_, (ast.GeneratorExp, ast.ListComp, ast.SetComp)) and isinstance(par.get(id(p_)), ast.Call) \
+                and norm(par[id(p_)].func) in ('all', 'any', 'set', 'frozenset', 'sum', 'len'):
+              blind = True
+            cur = p_
+          if not blind:
+            return False
+        return True
+      if reads and all(order_blind(c_) for c_ in reads) and not au.aliens(ast.Tuple(elts=reads, ctx=ast.Load()), {geos, indices}):
+        rep.violation('R3/selection', f.qualname, 'narrowing bypassed under ' + ' and '.join(norm(c_)[:60] for c_ in reads),
+                      'in index mode the narrowing to the given subset is skipped when `%s`: that condition reads the subset only through order-insensitive operations, so a full list of geos in any other order than the table\'s is answered with positions of the table order, not of the given order'
+                      % ' and '.join(norm(c_)[:80] for c_ in reads), f.loc(narrow[0].ast))
+        return
+      if reads:
+        bypass_reads_order = True       # the skip depends on the request in an order-sensitive way: not decided here
   if len(narrow) != 1 or len(resets) != 1:
     rep.undecided('R3/selection', 'get_eligible_assignments', 'expected one label narrowing and one reset_index (found %d, %d)' % (len(narrow), len(resets)), f.loc())
     return
@@ -434,9 +486,9 @@ def r3_selection(repo, rep):
   # the narrowing need not dominate the reset syntactically: it must lie on every path to it on which a subset is given
   nn_before = nn in dom[rn] or g.path_avoiding(g.entry, lambda n_: n_ is rn, lambda n_: n_ is nn,
                                                cfgmod.edge_filter_under(g, {geos: 'notnone', indices: True}, resolve_at=res_at, extra=cfgmod.no_exc)) is None
-  rep.check(nn_before, 'R3/selection', 'positional labels are taken after narrowing to the subset', f.qualname, norm(rn.ast),
-            'reset_index() is not preceded by the narrowing to the subset on every path: indices refer to positions in the full table, not in the given order',
-            f.loc(rn.ast))
+  rep.check3(True if nn_before else (None if bypass_reads_order else False), 'R3/selection', 'positional labels are taken after narrowing to the subset', f.qualname, norm(rn.ast),
+             'reset_index() is not preceded by the narrowing to the subset on every path: indices refer to positions in the full table, not in the given order',
+             f.loc(rn.ast), why_open='the narrowing is skipped under a condition that compares the request with the table in an order-sensitive way: whether it implies equal order is not decided')
   rep.check('drop=True' not in norm(rn.ast), 'R3/selection', 'reset_index keeps a fresh 0..n-1 index', f.qualname, norm(rn.ast), '', f.loc(rn.ast), nontrivial=False)
   # under facts: geos is None & indices -> raise ValueError ; geos not None & indices -> reset ; geos not None -> narrow
   rd_sel = dataflow.Reaching(g)
